@@ -1120,19 +1120,19 @@ def c18_jobs(tier, seed):
     names_pool = [dict(t='time-limited', m='removal-marker', u='x-y'), dict(t='期限', m='削除', u='他'), dict(t='T', m='tm', u='t')]
     tnames = ['ends-with-close-tag', 'block', 'inline', 'ready-in-pending', 'unwrap', 'two-blocks', 'multibyte-seam', 'only-element', 'pending-in-ready', 'unwrap-nested-pending',
               'ready-in-unregistered', 'last-line']
-    budget = 2 if tier == 'quick' else 4
+    budget = 2 if tier == 'quick' else 3
     if tier == 'quick':
         tnames = ['ready-in-pending', 'unwrap-nested-pending', 'inline', 'pending-in-ready', 'ends-with-close-tag']
     for name in tnames:
         tpl = STRUCT[name]
-        vs = variants(tpl, budget, 2, rnd, 1 if tier == 'quick' else 3)
+        vs = variants(tpl, budget, 2, rnd, 1 if tier == 'quick' else 2)
         for sizes in vs:
             inst = instantiate(tpl, sizes)
-            for (ds, de) in ([POOL[1], POOL[2], POOL[4], POOL[6], POOL[7], POOL[8], POOL[10]] if tier != 'quick' else [POOL[1], POOL[6], POOL[8]]):
+            for (ds, de) in ([POOL[1], POOL[4], POOL[6], POOL[8], POOL[10]] if tier != 'quick' else [POOL[1], POOL[6], POOL[8]]):
                 nm = names_pool[(len(jobs)) % len(names_pool)]
                 jobs.append(dict(harness='c18_spelling', label=f'{name} holes={sizes} ds={ds!r} de={de!r} names={nm["t"]}/{nm["m"]}',
                                  params=dict(tpl=inst, ds=ds, de=de, names=nm)))
-            for (a, b, nl) in ([(1, 1, 1), (2, 2, 2)] if tier == 'quick' else [(1, 1, 1), (2, 2, 2), (3, 3, 2), (1, 2, 1), (4, 4, 1)]):
+            for (a, b, nl) in ([(1, 1, 1), (2, 2, 2)] if tier == 'quick' else [(1, 1, 1), (2, 2, 2), (3, 3, 1)]):
                 jobs.append(dict(harness='c18_spelling', label=f'{name} holes={sizes} symbolic |ds|={a}B |de|={b}B |names|={nl}B',
                                  params=dict(tpl=inst, ds_len=a, de_len=b, name_len=nl)))
     return jobs
